@@ -80,7 +80,7 @@ SPEC = {
                                 "rejoined_fibers": 60000, "rejoin_three_or_more_levels": 2000,
                                 "tensors_filled_after_construction": 4000, "filled_from_empty_after_yaml": 1000,
                                 "grown_beyond_recorded_estimate": 500, "join_sibling_shapes_differ": 800,
-                                "merge_absolute_from_above_split_halves": 300, "attributes_redeclared": 3000,
+                                "merge_absolute_from_above_split_halves": 150, "attributes_redeclared": 3000,
                                 "flattened_rank_format_declared": 1000,
                                 "declared_format_of_flattened_rank_carried": 300}},
     "assumptions": [
